@@ -75,6 +75,9 @@ def run_case(ctx, rng, index, casedir):
     M.CTX["coords"] = rgaf.Coords(g)
     hi = 400 if ctx.tier == "quick" else rng.choice([400, 1500, 5000])
     nrec = rng.choice([1, 2, 3, rng.randint(4, 40), rng.randint(40, hi)])
+    if rng.random() < 0.03:
+        nrec = 0  # "any number of records": an empty file converts to an empty file
+        sit["zero_record_files"] += 1
     walks = ggaf.make_walks(g, rng, nrec, maxlen=rng.choice([4, 12]), forced=nrec >= 6)
     recs = [ggaf.make_record(g, rng, w, f"r{index}_{i}", offsets="canonical", tags=rng.choice(["safe", "grammar_plain"])) for i, w in enumerate(walks)]
     if len(recs) >= 100:
@@ -146,4 +149,4 @@ def run_case(ctx, rng, index, casedir):
     M.CTX.clear()
     return {"sigs": sigs, "evals": max(evals, 1), "situations": dict(sit), "violations": viol,
             "outcomes": dict(outcomes),
-            "sample": {"records": len(recs), "gaf_mode": mode, "first": u_lines[0][:200]}}
+            "sample": {"records": len(recs), "gaf_mode": mode, "first": (u_lines[0][:200] if u_lines else None)}}
